@@ -189,9 +189,9 @@ PROPS["C11"] = {
     ],
     "not_covered": [
         "closure retention across the FFI (resolve_closure, close_upvalues_by_idx, WASM closure memory): whether the closure handle still denotes the scheduled closure when it runs",
-        "the VM FFI behind RuntimeHandle (get_arg_*, resolve_closure, execute_closure); the cpal real-time driver loop (csr / cpal back ends); hot swap in the middle of a run",
+        "the VM FFI behind RuntimeHandle apart from execute_closure (get_arg_*, resolve_closure: raw-pointer casts and transmutes); the cpal real-time driver loop (csr / cpal back ends); hot swap in the middle of a run",
     ],
-    "explanation": "C11 tick protocol (unit dsp_tick): one run_dsp(t) makes every audio worker's on_sample(t, ..) call, in index order, once each, and only then runs dsp -- on the VM runtime and on the WASM runtime; LocalBufferDriver::play calls run_dsp with count, count+1, .. exactly once each and leaves the clock at count + times. C11: SimpleScheduler::schedule_at sends exactly one task (time = f64 argument truncated, closure = resolved handle); both refusal directions are proved (a received / scheduled task that is not in the future never returns normally: contract variants with `ensures false`); WasmSchedulerHandle::on_sample = set time, drain, execute each due closure once in order; Task order is by `when` only (proved); pop_task returns a due task of minimal time and removes exactly it; SchedulerAudioWorker::on_sample and WasmSchedulerHandle::drain_due_tasks execute/return exactly the due multiset in non-decreasing time and keep exactly the rest; the schedule trampoline inserts exactly one task and refuses non-future times; lemma_sample_step lifts the per-sample contract to 'each task runs exactly once, at the sample equal to its time' by induction on the sample index; VM and WASM satisfy the same per-sample contract.",
+    "explanation": "C11 execution of a due task on the VM (vm_execute_closure, unit dsp_tick): the closure the handle denotes is run once, as a closure of its own function, and the reference the scheduler held is dropped once, afterwards. C11 tick protocol (unit dsp_tick): one run_dsp(t) makes every audio worker's on_sample(t, ..) call, in index order, once each, and only then runs dsp -- on the VM runtime and on the WASM runtime; LocalBufferDriver::play calls run_dsp with count, count+1, .. exactly once each and leaves the clock at count + times. C11: SimpleScheduler::schedule_at sends exactly one task (time = f64 argument truncated, closure = resolved handle); both refusal directions are proved (a received / scheduled task that is not in the future never returns normally: contract variants with `ensures false`); WasmSchedulerHandle::on_sample = set time, drain, execute each due closure once in order; Task order is by `when` only (proved); pop_task returns a due task of minimal time and removes exactly it; SchedulerAudioWorker::on_sample and WasmSchedulerHandle::drain_due_tasks execute/return exactly the due multiset in non-decreasing time and keep exactly the rest; the schedule trampoline inserts exactly one task and refuses non-future times; lemma_sample_step lifts the per-sample contract to 'each task runs exactly once, at the sample equal to its time' by induction on the sample index; VM and WASM satisfy the same per-sample contract.",
     "samples": [
         {"obligation": "SchedulerAudioWorker::on_sample::ensures", "clause": "exists ex: log' == log + closures_of(ex) && sorted_by_when(ex) && count(ex) == due part of (heap + inbox) && heap' == later part"},
         {"obligation": "lemma_sample_step", "clause": "none_overdue(p, now) && sample_step(..) ==> executed == tasks with when == now, none_overdue(next, now+1)"},
